@@ -449,7 +449,8 @@ fn route_outcome(c: &RouteCase) -> Result<Option<Discrepancy>, String> {
         let warm = !c.ops.is_empty() && h64(&(c.sender, &c.ops, c.batch.len())) % 2 == 0;
         let warm_route = |router: &GossipRouter| {
             let me = ReplicaId::new(c.sender);
-            let ds: Vec<ReplicationDelta> = c.batch.iter().enumerate().map(|(i, k)| ReplicationDelta::new(k.clone(), ReplicatedValue::with_value(SDS::from_str("v"), LamportClock { time: i as u64, replica_id: me }), me)).collect();
+            let c_batch_len = c.batch.len();
+            let ds: Vec<ReplicationDelta> = c.batch.iter().enumerate().map(|(i, k)| ReplicationDelta::new(k.clone(), ReplicatedValue::with_value(payload_for(c_batch_len, i), LamportClock { time: i as u64, replica_id: me }), me)).collect();
             let _ = router.route_deltas(ds);
         };
         if warm {
@@ -475,7 +476,8 @@ fn route_outcome(c: &RouteCase) -> Result<Option<Discrepancy>, String> {
             return Some(Discrepancy { kind: "router-not-selective", target: 0, idx: 0, detail: "is_selective() == false for a partitioned-cluster config".into() });
         }
         // the Lamport time carries the delta's index in the batch
-        let mk = |(i, k): (usize, &String)| ReplicationDelta::new(k.clone(), ReplicatedValue::with_value(SDS::from_str("v"), LamportClock { time: i as u64, replica_id: me }), me);
+        let c_batch_len = c.batch.len();
+        let mk = |(i, k): (usize, &String)| ReplicationDelta::new(k.clone(), ReplicatedValue::with_value(payload_for(c_batch_len, i), LamportClock { time: i as u64, replica_id: me }), me);
         let deltas: Vec<ReplicationDelta> = c.batch.iter().enumerate().map(mk).collect();
         // delta index -> targets it was handed to (with multiplicity)
         let mut got: Vec<Vec<u64>> = vec![vec![]; deltas.len()];
@@ -596,6 +598,16 @@ fn check_route(rep: &mut Report, c: &RouteCase) {
     cls.push(if cur.ops.is_empty() { "static-ring" } else { "ring-changed-under-router" });
     cls.push(if cur.batch.len() == 1 { "batch=1" } else { "batch>1" });
     viol(rep, format!("C19|GossipRouter::{}|{}|{}|{}", cur.ctor, cur.via, d.kind, cls.join(",")), || d.detail.clone(), || cur.json());
+}
+
+/// Value carried by the i-th delta of a batch: one byte normally; odd-sized deep batches carry 2-8 KiB values, so that a
+/// gossip round weighs megabytes (a size-driven split of a round must not lose its tail any more than a count-driven one).
+fn payload_for(batch_len: usize, i: usize) -> SDS {
+    if batch_len > 200 && batch_len % 2 == 1 {
+        SDS::from_str(&"p".repeat(2048 + (i % 7) * 1000))
+    } else {
+        SDS::from_str("v")
+    }
 }
 
 fn gen_batch(rng: &mut Rng, keys: &[String], rep: &mut Report) -> Vec<String> {
@@ -900,7 +912,8 @@ fn route_under_churn(rep: &mut Report, rng: &mut Rng, cfg: &Cfg, keys: &[String]
     let mut worst: Option<(usize, u64, Vec<u64>)> = None;
     let rounds = 150;
     for _ in 0..rounds {
-        let deltas: Vec<ReplicationDelta> = batch.iter().enumerate().map(|(i, k)| ReplicationDelta::new(k.clone(), ReplicatedValue::with_value(SDS::from_str("v"), LamportClock { time: i as u64, replica_id: me }), me)).collect();
+        let c_batch_len = batch.len();
+        let deltas: Vec<ReplicationDelta> = batch.iter().enumerate().map(|(i, k)| ReplicationDelta::new(k.clone(), ReplicatedValue::with_value(payload_for(c_batch_len, i), LamportClock { time: i as u64, replica_id: me }), me)).collect();
         let table = router.route_deltas(deltas);
         let mut got: Vec<BTreeSet<u64>> = vec![BTreeSet::new(); batch.len()];
         for (t, ds) in table.iter() {
